@@ -122,6 +122,7 @@ type tapTree struct {
 	out      []byte // x-only output key
 	parity   byte
 	leafKey  int
+	codesep  uint32 // opcode position of the last executed OP_CODESEPARATOR of the leaf (0xffffffff: none)
 }
 
 func tapLeafHash(script []byte) [32]byte {
@@ -135,8 +136,16 @@ func tapLeafHash(script []byte) [32]byte {
 func (w *Wallet) tapTree(i int) *tapTree {
 	i = i % len(w.priv)
 	j := (i + 1) % len(w.priv)
-	tt := &tapTree{leafKey: j, internal: append([]byte{}, w.pub[i][1:33]...)}
+	tt := &tapTree{leafKey: j, internal: append([]byte{}, w.pub[i][1:33]...), codesep: 0xffffffff}
 	tt.leaf = append(push(w.pub[j][1:33]), 0xac)
+	switch (i / 3) % 4 {
+	case 1: // a code separator in a branch that is not executed: does not count
+		tt.leaf = append([]byte{0x00, 0x63, 0xab, 0x68}, tt.leaf...)
+	case 2: // executed, first opcode
+		tt.leaf, tt.codesep = append([]byte{0xab}, tt.leaf...), 0
+	case 3: // executed, third opcode (OP_1 OP_IF OP_CODESEPARATOR OP_ENDIF)
+		tt.leaf, tt.codesep = append([]byte{0x51, 0x63, 0xab, 0x68}, tt.leaf...), 2
+	}
 	tt.leafHash = tapLeafHash(tt.leaf)
 	k := tt.leafHash
 	for lvl := 0; lvl < i%3; lvl++ {
@@ -417,12 +426,12 @@ func SegwitDigest(t *Tx, i int, scriptCode []byte, amount uint64, ht uint32) [32
 // TaprootDigest is BIP341 key-path (no annex); spent are the coins of ALL inputs.
 // ok=false where BIP341 defines no digest.
 func TaprootDigest(t *Tx, i int, spent []Coin, ht byte) (d [32]byte, ok bool) {
-	return TaprootDigestExt(t, i, spent, ht, nil, nil)
+	return TaprootDigestExt(t, i, spent, ht, nil, nil, 0xffffffff)
 }
 
 // TaprootDigestExt is the BIP341 digest with an optional annex and, for script-path spends (BIP342), the
 // leaf hash (key version 0, no OP_CODESEPARATOR executed).
-func TaprootDigestExt(t *Tx, i int, spent []Coin, ht byte, annex []byte, leaf *[32]byte) (d [32]byte, ok bool) {
+func TaprootDigestExt(t *Tx, i int, spent []Coin, ht byte, annex []byte, leaf *[32]byte, codesep uint32) (d [32]byte, ok bool) {
 	switch ht {
 	case 0, 1, 2, 3, 0x81, 0x82, 0x83:
 	default:
@@ -502,7 +511,7 @@ func TaprootDigestExt(t *Tx, i int, spent []Coin, ht byte, annex []byte, leaf *[
 	if leaf != nil {
 		b.Write(leaf[:])
 		b.WriteByte(0)                          // key_version
-		b.Write([]byte{0xff, 0xff, 0xff, 0xff}) // codeseparator position: none executed
+		b.Write(le32(codesep)) // opcode position of the last EXECUTED code separator (0xffffffff: none)
 	}
 	return TaggedHash("TapSighash", b.Bytes()), true
 }
@@ -603,7 +612,11 @@ func (w *Wallet) Sign(t *Tx, i int, spent []Coin, ht byte, corrupt int) string {
 				tht = ht
 			}
 		}
-		d, defined := TaprootDigestExt(t, i, sp, tht, annex, leaf)
+		codesep := uint32(0xffffffff)
+		if tt != nil {
+			codesep = tt.codesep
+		}
+		d, defined := TaprootDigestExt(t, i, sp, tht, annex, leaf, codesep)
 		if !defined {
 			d = [32]byte{} // the signer deliberately signs "some digest": all zeros
 			valid = false
